@@ -149,7 +149,7 @@ class EmailMessage(_Observable):
     def _check_object_constraints(self):
         super(EmailMessage, self)._check_object_constraints()
         self._check_properties_dependency(['is_multipart'], ['body_multipart'])
-        if self.get('is_multipart') is True and self.get('body'):
+        if self.get('is_multipart') is True and 'body' in self:
             # 'body' MAY only be used if is_multipart is false.
             raise DependentPropertiesError(self.__class__, [('is_multipart', 'body')])
 
